@@ -36,6 +36,10 @@ func authMode(r *sim.Rng, nStates, perState int, cw, cwBlk *sim.CaseWriter) {
 		g.Accounts = append(g.Accounts, &fsm.Account{Address: ms0.addr, Amount: 2_000_000_000})
 		att, vic := newEthActor(), newEthActor()
 		g.Accounts = append(g.Accounts, &fsm.Account{Address: att.addr, Amount: 3_000_000_000}, &fsm.Account{Address: vic.addr, Amount: 3_000_000_000})
+		// fresh keys for the dependent blocks below (an object created and acted upon inside one block)
+		for i := 0; i < 4; i++ {
+			g.Accounts = append(g.Accounts, &fsm.Account{Address: sim.BLSKey(100 + i).Addr, Amount: 3_000_000_000})
+		}
 		n, err := sim.NewFNode(g.State(), nil)
 		if err != nil {
 			panic(err)
@@ -265,7 +269,109 @@ func authMode(r *sim.Rng, nStates, perState int, cw, cwBlk *sim.CaseWriter) {
 			st.Distinct++
 			st.TxCases["auth:block"]++
 		}
+		dependentBlocks(r, n, sI, cwBlk)
 		n.Close()
+	}
+}
+
+// dependentBlocks (property C05): blocks in which an object is CREATED by a rightfully signed transaction and acted upon by a
+// later transaction of the same block that declares the owner's public key but carries somebody else's signature (a forged
+// edit-stake / unstake / pause behind the stake that creates the validator; a forged edit-order / delete-order behind the
+// create-order). Before the creating transaction has run the forged one cannot even resolve its authorized signers; once it has,
+// only the signature check stands between the forger and the owner's validator / order.  Judged by the same predicate as the
+// transfer blocks (executed => really signed by the authorized key) and presented twice.
+func dependentBlocks(r *sim.Rng, n *sim.FNode, sI int, cwBlk *sim.CaseWriter) {
+	for b := 0; b < 4; b++ {
+		n.Enter()
+		n.FSM.Reset()
+		h := n.FSM.Height()
+		owner, forger := sim.BLSKey(100+b), sim.BLSKey(r.Intn(9))
+		ownerAddr := crypto.NewAddress(owner.Addr)
+		forge := func(txi lib.TransactionI, e lib.ErrorI) []byte {
+			if e != nil {
+				return nil
+			}
+			t := txi.(*lib.Transaction)
+			sb, _ := t.GetSignBytes()
+			t.Signature = &lib.Signature{PublicKey: owner.Pub, Signature: forger.Priv.Sign(sb)}
+			bz, _ := lib.Marshal(t)
+			return bz
+		}
+		var txs [][]byte
+		var lits []string
+		add := func(bz []byte, honest bool) {
+			if bz == nil {
+				return
+			}
+			txs = append(txs, bz)
+			if honest {
+				lits = append(lits, sim.AddrN(owner.Addr)+", "+sim.AddrN(owner.Addr))
+			} else {
+				lits = append(lits, "0%N, "+sim.AddrN(owner.Addr))
+			}
+		}
+		kind := "stake"
+		if b%2 == 0 {
+			memo := fmt.Sprintf("dep%d-%d", sI, b)
+			add(sim.TxBytes(fsm.NewStakeTx(owner.Priv, owner.Pub, ownerAddr, "tcp://fresh", []uint64{1}, 1000, 1, 1, 10000, h, r.Bool(), false, memo)), true)
+			switch r.Intn(3) {
+			case 0:
+				add(forge(fsm.NewEditStakeTx(owner.Priv, ownerAddr, crypto.NewAddress(forger.Addr), "tcp://fresh", []uint64{1}, 1777, 1, 1, 10000, h, false, memo+"e")), false)
+			case 1:
+				add(forge(fsm.NewUnstakeTx(owner.Priv, ownerAddr, 1, 1, 10000, h, memo+"u")), false)
+			default:
+				add(forge(fsm.NewPauseTx(owner.Priv, ownerAddr, 1, 1, 10000, h, memo+"p")), false)
+			}
+		} else {
+			kind = "order"
+			memo := fmt.Sprintf("dep%d-%d", sI, b)
+			ctx, e := fsm.NewCreateOrderTx(owner.Priv, 1_000_000_000, 100, 1, nil, owner.Addr, 1, 1, 10000, h, memo)
+			if e != nil {
+				continue
+			}
+			hash, _ := ctx.(*lib.Transaction).GetHash()
+			id := sim.Hex(hash[:20])
+			add(sim.TxBytes(ctx, e), true)
+			if r.Bool() {
+				add(forge(fsm.NewEditOrderTx(owner.Priv, id, 1_000_000_000, 1, 1, nil, forger.Addr, 1, 1, 10000, h, memo+"e")), false)
+			} else {
+				add(forge(fsm.NewDeleteOrderTx(owner.Priv, id, 1, 1, 1, 10000, h, memo+"d")), false)
+			}
+		}
+		if len(txs) < 2 {
+			continue
+		}
+		var first map[string]bool
+		for pres := 0; pres < 2; pres++ {
+			res := new(lib.ApplyBlockResults)
+			aerr := n.FSM.ApplyTransactions(context.Background(), txs, res, true)
+			executed := map[string]bool{}
+			if aerr == nil {
+				for _, t := range res.Txs {
+					executed[string(t)] = true
+				}
+			}
+			n.FSM.Reset()
+			if pres == 0 {
+				first = executed
+				var items []string
+				for i, l := range lits {
+					items = append(items, fmt.Sprintf("(%s, %s)", l, sim.CoqBool(executed[string(txs[i])])))
+				}
+				cwBlk.Add("mkABlk "+sim.CoqList(items), map[string]any{"txs": len(txs), "executed": len(executed), "kind": "dependent-" + kind, "block": hexAll(txs)})
+				st.Cases++
+				st.Distinct++
+				st.TxCases["auth:dependent-block-"+kind]++
+				st.TxOutcome[fmt.Sprintf("auth:dependent-block-%s:creator-executed=%v", kind, executed[string(txs[0])])]++
+			} else {
+				for i := range txs {
+					if executed[string(txs[i])] != first[string(txs[i])] {
+						sim.Direct(outDirG, map[string]any{"finding": "second-presentation-differs", "kind": "a transaction refused in a dependent block is executed when the same block is presented again (or the other way round)",
+							"index": i, "block": hexAll(txs)})
+					}
+				}
+			}
+		}
 	}
 }
 
